@@ -130,3 +130,26 @@ def value_to_spec(meta, v):
     if name == 'Tuple':
         return ('T', [value_to_spec(meta, x) for x in v.fields[0].items])
     return ('E',)
+
+
+FLOAT_POOL = [0.0, -0.0, 0.5, 1.0, -1.0, 2.0, 3.0, 5.0, 7.0, 10.0, 100.0, 1000.0, 1e15, 1e-7, float('inf'), float('-inf'), float('nan'), 9007199254740993.0, 0.1]
+INT_POOL = [0, 1, -1, 2, 10, 1000, 2 ** 63 - 1, -2 ** 63, 2 ** 53 + 1, 3037000500, -3037000500, 3037000499, 64, 63, 255]
+
+
+def diversify_plan(specs):
+    """[(z3 variable term, [z3 values])] for the scalar leaves of the given specs"""
+    import models
+    out = []
+
+    def walk(s):
+        if s[0] == 'F' and z3.is_const(s[1]) and s[1].decl().kind() == z3.Z3_OP_UNINTERPRETED:
+            out.append((s[1], [models.fp_from_py(x) for x in FLOAT_POOL]))
+        elif s[0] == 'I' and z3.is_const(s[1]) and s[1].decl().kind() == z3.Z3_OP_UNINTERPRETED:
+            out.append((s[1], [z3.BitVecVal(x, 64) for x in INT_POOL]))
+        elif s[0] == 'T':
+            for x in s[1]:
+                walk(x)
+    for sp in specs:
+        if sp is not None:
+            walk(sp)
+    return out
